@@ -23,7 +23,7 @@ macro "bridge_sig" : tactic => `(tactic| (
         toNat_eq_lit _ 64 (by decide), gt_lit _ 63 (by decide), ge_lit _ 64 (by decide), getLsbD_toNat,
         BitVec.ofNat_toNat, BitVec.setWidth_eq]
       try unfold Data
-      constructor <;> bv_decide))
+      constructor <;> bv_decide (config := { timeout := 120 })))
 
 theorem bridge_sig_unmarshalUnsigned (s : Gen.Go.Signal) (d : BitVec 64) :
     Signal_UnmarshalUnsigned_ret s d = (sigOf s).unmarshalUnsigned d ∧ Signal_UnmarshalUnsigned_ok s d = true := by
